@@ -108,6 +108,8 @@ def run_case(case):
         M.run_to_end()
         tm = M.tables()
         res["days"] += M.steps_done
+        for ev in (spec.get("weather") or {}).get("events") or []:
+            res["faults"]["event:" + ev["kind"]] = res["faults"].get("event:" + ev["kind"], 0) + 1
         th_init = None
         pl = [pd.Timestamp(x) for x in M.clock.planting_dates]
         start = pd.Timestamp(parse_date(spec["start"]))
